@@ -51,17 +51,23 @@ def verif_key():
 
 
 # ------------------------------------------------------------------------------------------------
+def harness_copy(scratch):
+    """a private copy of the harness sources with a go.mod that points at the repository under test"""
+    hdir = os.path.join(scratch, "harness-src")
+    shutil.rmtree(hdir, ignore_errors=True)
+    shutil.copytree(os.path.join(VERIF, "harness"), hdir, ignore=shutil.ignore_patterns("go.mod", "go.sum"))
+    tmpl = open(os.path.join(hdir, "go.mod.tmpl")).read().replace("@REPO@", REPO)
+    open(os.path.join(hdir, "go.mod"), "w").write(tmpl)
+    shutil.copy(os.path.join(REPO, "go.sum"), os.path.join(hdir, "go.sum"))
+    return hdir
+
+
 def build_harness(scratch):
     """go build the drivers against the repository's current working tree, hooks enabled."""
     t0 = time.time()
-    hdir = os.path.join(VERIF, "harness")
-    mod = os.path.join(scratch, "go.mod")
-    tmpl = open(os.path.join(hdir, "go.mod.tmpl")).read().replace("@REPO@", REPO)
-    open(mod, "w").write(tmpl)
-    shutil.copy(os.path.join(REPO, "go.sum"), os.path.join(scratch, "go.sum"))
+    hdir = harness_copy(scratch)
     out = os.path.join(scratch, "vdrive")
-    p = sh(["go", "build", "-tags", "verif", "-modfile", mod, "-o", out, "./cmd/vdrive"], cwd=hdir, env=GOENV,
-           timeout=1500)
+    p = sh(["go", "build", "-tags", "verif", "-o", out, "./cmd/vdrive"], cwd=hdir, env=GOENV, timeout=1500)
     if p.returncode != 0:
         raise Machinery("harness does not build against %s:\n%s" % (REPO, (p.stdout + p.stderr)[-4000:]))
     return out, time.time() - t0
